@@ -436,6 +436,30 @@ def r6_accumulator(ctx):
                 ctx.check('_fwdm' in a or a == '{}', construct, 'further '
                           'rooms are merged with .update(<mapping>)',
                           key='update', where=where(f, e.node))
+    # every addressed room is visited: constant indexes into the room list
+    # form the split (first room, the rest) = ([0], [1:])
+    room_p = f.params[2]
+    idx = []
+    for n_ in walk_own(f.node):
+        if isinstance(n_, ast.Subscript) and U(n_.value) == room_p:
+            sl = n_.slice
+            if isinstance(sl, ast.Constant):
+                idx.append(('item', sl.value, n_))
+            elif isinstance(sl, ast.Slice):
+                idx.append(('slice', (U(sl.lower) if sl.lower else None,
+                                      U(sl.upper) if sl.upper else None),
+                            n_))
+    items = {v for k, v, _ in idx if k == 'item'}
+    slices = {v for k, v, _ in idx if k == 'slice'}
+    if idx:
+        ctx.check(items <= {0} and slices <= {('1', None)} and
+                  (not items or slices), construct, 'a list of rooms is '
+                  'split into its first element and the rest: every listed '
+                  'room contributes its members', key='room-split',
+                  reason='the room list is indexed with %s / sliced with %s: '
+                  'a listed room is skipped or counted from the wrong '
+                  'position' % (sorted(items), sorted(slices)),
+                  where=where(f, idx[0][2]))
     # room lookup is by the function's namespace and the given room(s)
     first = [n_ for n_ in walk_own(f.node) if isinstance(n_, ast.Assign) and
              U(n_.targets[0]) == 'ns']
